@@ -17,9 +17,9 @@ import (
 func init() {
 	Register(&PropDef{
 		ID: "C06", QuickRuns: 1600, Level: "exploration", Race: true,
-		Rule: "two layers per batch. (api) 2-8 simulated tasks call LookupOrAllocIP / DeallocIP on a real IPPool (/30 ... /26, more sessions than addresses) under statement-level pre-emption and all strategies; invoke / return are stamped with the simulator's global step counter; the history (<= 60 operations) is checked for linearizability against a sequential pool model with porcupine (30 s timeout = inconclusive), plus invariants on every returned value (inside the prefix, not network / broadcast, exclusive, sticky, refusal only when full, conservation). (pfcp) 2-6 associations establish sessions that ask for a UP-allocated UE address at the same instant; the addresses in the Created PDR elements must satisfy the same invariants. In the race build any detector report whose stacks lie inside the pool is a violation. Non-trivial = at least one pre-emption inside a pool operation or > 20 task switches; distinct = different operation history skeleton. Also (agent layer): modifications that ask for the address again (Create PDR with CHV4) and are refused half-way.",
+		Rule:   "two layers per batch. (api) 2-8 simulated tasks call LookupOrAllocIP / DeallocIP on a real IPPool (/30 ... /26, more sessions than addresses) under statement-level pre-emption and all strategies; invoke / return are stamped with the simulator's global step counter; the history (<= 60 operations) is checked for linearizability against a sequential pool model with porcupine (30 s timeout = inconclusive), plus invariants on every returned value (inside the prefix, not network / broadcast, exclusive, sticky, refusal only when full, conservation). (pfcp) 2-6 associations establish sessions that ask for a UP-allocated UE address at the same instant; the addresses in the Created PDR elements must satisfy the same invariants. In the race build any detector report whose stacks lie inside the pool is a violation. Non-trivial = at least one pre-emption inside a pool operation or > 20 task switches; distinct = different operation history skeleton. Also (agent layer): modifications that ask for the address again (Create PDR with CHV4) and are refused half-way.",
 		Assume: []string{"porcupine v1.3.0; the sequential model allows any free address to be returned (the property does not fix the order)"},
-		Real: CommonReal, Simulated: CommonSim,
+		Real:   CommonReal, Simulated: CommonSim,
 		Scenario: scenarioC06,
 	})
 }
